@@ -31,20 +31,24 @@ theorem attrTail_state (st : AttrState) (c : Ctx) (res : Sel) :
     reset, as every return path leaves it — the result is the pure planner's -/
 theorem processAttr_out (st : AttrState) (h : st.isAliased = false) (c : Ctx) (terms : List Term) (cond : Cond)
     (aggAttr : String) : (processAttr st c terms cond aggAttr).2 = attrCondition c terms cond aggAttr := by
-  unfold processAttr processAttrWith whereNew createWhere attrCondition
-  cases hm : mapOk termSql terms with
-  | error e => rfl
-  | ok xs =>
-    simp only [h, condSqlA_bsCond, attrTail_sel]
-    rfl
+  unfold processAttr processAttrWith whereNew createWhere attrCondition attrConditionCore
+  split
+  · rfl
+  · cases hm : mapOk termSql terms with
+    | error e => rfl
+    | ok xs =>
+      simp only [h, condSqlA_bsCond, attrTail_sel]
+      rfl
 
 /-- … and the flag is reset again afterwards (also when `Process` returned an error) -/
 theorem processAttr_clean (st : AttrState) (h : st.isAliased = false) (c : Ctx) (terms : List Term) (cond : Cond)
     (aggAttr : String) : (processAttr st c terms cond aggAttr).1.isAliased = false := by
   unfold processAttr processAttrWith whereNew createWhere
-  cases hm : mapOk termSql terms with
-  | error e => simpa using h
-  | ok xs => simp [attrTail_state]
+  split
+  · exact h
+  · cases hm : mapOk termSql terms with
+    | error e => simpa using h
+    | ok xs => simp [attrTail_state]
 
 /-- `AggregatorPlanner.Process` never reads what an earlier `Process` left in `fCmpVal` -/
 theorem processAgg_out (st : AggState) (pfx : String) (a : Agg) (main : Sel) :
